@@ -339,7 +339,8 @@ impl PoolGen {
                 None => break,
             };
             let outs: Vec<&Coin> = p.info.assets.iter().filter(|c| c.denom != cur).collect();
-            let out = outs.choose(&mut self.rng)?.denom.clone();
+            // now and then a degenerate hop that asks for the token it offers
+            let out = if self.rng.gen_range(0..25) == 0 { cur.clone() } else { outs.choose(&mut self.rng)?.denom.clone() };
             ops.push(SwapOperation::MantraSwap {
                 token_in_denom: cur.clone(),
                 token_out_denom: out.clone(),
